@@ -426,7 +426,7 @@ def check(run, tier):
     rest = [r for r in rows if r["k"] != "enc"]
     n = common.NCPU
     with multiprocessing.Pool(n) as pool:
-        outs = pool.map(_enc_rows, [(enc[i::n], common.SEED * 17 + i, 4 if quick else 8) for i in range(n)])
+        outs = pool.map(_enc_rows, [(enc[i::n], common.SEED * 17 + i, 4 if quick else 6) for i in range(n)])
     nrun = 0
     for out in outs:
         for o in out:
